@@ -60,6 +60,43 @@ class AttrView(Model):
     def get(self, n, default=None):
         return self._g._node.get(n, default)
 
+    # networkx's NodeView is a collections.abc.Set over the node names
+    def isdisjoint(self, other):
+        return set(self._g._node).isdisjoint(other)
+
+    def __and__(self, other):
+        return set(self._g._node) & set(other)
+
+    __rand__ = __and__
+
+    def __or__(self, other):
+        return set(self._g._node) | set(other)
+
+    __ror__ = __or__
+
+    def __sub__(self, other):
+        return set(self._g._node) - set(other)
+
+    def __rsub__(self, other):
+        return set(other) - set(self._g._node)
+
+    def __xor__(self, other):
+        return set(self._g._node) ^ set(other)
+
+    __rxor__ = __xor__
+
+    def __le__(self, other):
+        return set(self._g._node) <= set(other)
+
+    def __lt__(self, other):
+        return set(self._g._node) < set(other)
+
+    def __ge__(self, other):
+        return set(self._g._node) >= set(other)
+
+    def __gt__(self, other):
+        return set(self._g._node) > set(other)
+
 
 class EdgeView(Model):
     def __init__(self, g):
